@@ -55,6 +55,8 @@ def ctr_backends(ctx, prog, an):
     for name, f, c, decl in sorted(pubs, key=lambda x: x[2]["kind"] not in ("init", "cleanup")):
         s = an.summaries[f.key]
         for (iid, st, idx, targets) in s.indirect:
+            if st is None:
+                continue
             if c["kind"] in ("init", "cleanup") and (st, idx) in slot_users and slot_users[(st, idx)][1]["kind"] not in ("init", "cleanup"):
                 continue
             if c["kind"] == "init" and idx != 0 and False:
